@@ -29,6 +29,62 @@ pub enum Decision {
 
 pub type CallLog = Rc<RefCell<Vec<CallRecord>>>;
 
+/// A step of another client that the simulator runs INSIDE a callback
+/// invocation of the evaluation in progress (the only yield points a
+/// synchronous evaluation has).
+pub struct PendingInner {
+    pub idx: usize,
+    pub at_call: u32,
+    pub lang: String,
+    pub text: String,
+    /// None: one-shot `execute(lang, text)`; Some: `execute_session` on that session (its text was set before the outer call started)
+    pub session: Option<*const smartcalc::Session>,
+    /// frozen instant the step sees
+    pub t: i128,
+}
+
+#[derive(Default)]
+pub struct NestState {
+    pub calc: Option<*const smartcalc::SmartCalc>,
+    pub depth: u32,
+    pub calls: u32,
+    pub pending: Vec<PendingInner>,
+    /// (step index, callback invocation it ran in, observation, clock reads it made)
+    pub done: Vec<(usize, u32, crate::obs::CallObs, u32)>,
+}
+
+/// Shared between a world and the callbacks registered on its calculator.
+pub type NestCtl = Rc<RefCell<NestState>>;
+
+/// Called at the start of every callback invocation of a world's calculator.
+fn yield_point(ctl: &NestCtl) {
+    let (calc, due): (*const smartcalc::SmartCalc, Vec<PendingInner>) = {
+        let mut st = ctl.borrow_mut();
+        let calc = match st.calc { Some(c) if st.depth == 0 => c, _ => return };
+        st.calls += 1;
+        let calls = st.calls;
+        let mut due = Vec::new();
+        let mut rest = Vec::new();
+        for p in st.pending.drain(..) { if p.at_call == calls { due.push(p); } else { rest.push(p); } }
+        st.pending = rest;
+        if due.is_empty() { return; }
+        st.depth = 1;
+        (calc, due)
+    };
+    let calls = ctl.borrow().calls;
+    for p in due {
+        // SAFETY: the pointers were taken from live shared borrows that outlive the outer call in
+        // progress (World::run_nested); evaluation takes `&self` / `&Session` only.
+        let calc: &smartcalc::SmartCalc = unsafe { &*calc };
+        let (obs, reads) = crate::clock::with_nested_frozen(p.t, || crate::obs::observe_call(|| match p.session {
+            None => crate::project_result!(calc.execute(&p.lang[..], &p.text[..])),
+            Some(s) => { let s: &smartcalc::Session = unsafe { &*s }; crate::project_result!(calc.execute_session(s)) }
+        }));
+        ctl.borrow_mut().done.push((p.idx, calls, obs, reads));
+    }
+    ctl.borrow_mut().depth = 0;
+}
+
 pub struct SimRule {
     pub spec: RuleSpec,
     pub salt: u64,
@@ -36,6 +92,8 @@ pub struct SimRule {
     /// when false the unwind decision is taken as "decline" (used on replicas
     /// where an unwinding step is skipped)
     pub allow_unwind: bool,
+    /// yield-point control of the world this rule is registered in
+    pub nest: NestCtl,
 }
 
 pub fn fields_vals(fields: &BTreeMap<String, TokenType>) -> Vec<(String, Val)> {
@@ -80,6 +138,7 @@ impl RuleTrait for SimRule {
     }
 
     fn call(&self, config: &SmartCalcConfig, fields: &BTreeMap<String, TokenType>) -> Option<TokenType> {
+        yield_point(&self.nest);
         let (fvals, digest) = fields_digest(fields);
         let decision = decide(&self.spec, self.salt, digest);
         self.log.borrow_mut().push(CallRecord { rule_id: self.spec.id, fields: fvals, decision });
